@@ -30,10 +30,10 @@ LEVEL = 'exploration'
 BUDGET_S = {'quick': 40, 'thorough': 600}
 FLOORS = {'quick': {'tasks': 530, 'must_remove_checked': 5500, 'must_keep_checked': 14000,
                     'foreign_files_checked': 8000, 'strategy_directory_walk': 70, 'strategy_bulk_delete': 100,
-                    'strategy_tile_walk': 330},
+                    'strategy_tile_walk': 330, 'vanished_under_cleanup': 150},
           'thorough': {'tasks': 10000, 'must_remove_checked': 100000, 'must_keep_checked': 270000,
                        'foreign_files_checked': 160000, 'strategy_directory_walk': 1350,
-                       'strategy_bulk_delete': 1750, 'strategy_tile_walk': 6600}}
+                       'strategy_bulk_delete': 1750, 'strategy_tile_walk': 6600, 'vanished_under_cleanup': 2500}}
 RULE = ("case = one cleanup task: backend (file x 6 layouts, sqlite, mbtiles +-timestamps, geopackage +-levels, "
         "compact v1/v2) populated at 3-5 levels with <=60 tiles around the coverage, timestamps T+{-1e6,-3600,-2,"
         "+2,+3600}, foreign files next to it; mapproxy.yaml + seed.yaml (levels list/range/from/to/all, "
@@ -429,7 +429,10 @@ def build_case(run, spec):
     return {'kind': 'explicit', 'backend': backend, 'layout': layout, 'grid': gname, 'meta': meta,
             'levels_conf': levels_conf, 'shape': shape, 'rb': rb, 'tz': tz, 'coverage': coverage,
             'cov_class': cov_class, 'coarse': coarse, 'tiles': tiles, 'link': link, 'two_grids': two_grids,
-            'populated': P}
+            'populated': P,
+            # a concurrent remover (second cleanup, seeder rewriting a tile): some tile files vanish in the very
+            # moment the cleanup looks at them
+            'vanish': (spec['i'] * 7919 + 13) if (backend == 'file' and not link and spec['i'] % 3 == 0) else None}
 
 
 # ---- backend plumbing ------------------------------------------------------------------------------------------
@@ -778,6 +781,8 @@ def _execute(run, case, d):
 
     def mech(obs, **kw):
         m = {'backend': backend, 'layout': layout, 'strategy': taken[0] if taken else strategy, 'obs': obs}
+        if victims:
+            m['files_vanish_under_cleanup'] = True
         m.update(kw)
         return m
 
@@ -1021,6 +1026,14 @@ def _execute(run, case, d):
     sel = set(selected_levels(case['levels_conf'], nlevels))
     lo, hi, slack = coverage_geoms(cov, gsrs)
 
+    # -- fault: tile files that vanish when the cleanup looks at them
+    victims = set()
+    vanished = set()
+    if case.get('vanish') is not None and backend == 'file':
+        import random as _random
+        vr = _random.Random(case['vanish'])
+        victims = set(e['path'] for c_, e in sorted(stored.items()) if vr.random() < 0.2)
+
     # -- run it
     exc = None
     if rejected is None:
@@ -1035,6 +1048,21 @@ def _execute(run, case, d):
                     return orig(*a, **kw)
                 return w
             setattr(cleanup_mod, fname, wrap(origs[fname], sname))
+        real_lstat = os.lstat
+        if victims:
+            def lstat_vanishing(path, *a, **kw):
+                try:
+                    sp = os.fspath(path)
+                except TypeError:
+                    return real_lstat(path, *a, **kw)
+                if sp in victims and sp not in vanished:
+                    vanished.add(sp)
+                    try:
+                        os.remove(sp)
+                    except OSError:
+                        pass
+                return real_lstat(path, *a, **kw)
+            os.lstat = lstat_vanishing
         try:
             with conf:
                 with contextlib.redirect_stdout(io.StringIO()):
@@ -1042,6 +1070,7 @@ def _execute(run, case, d):
         except Exception as ex:
             exc = (ex, traceback.format_exc()[-1800:])
         finally:
+            os.lstat = real_lstat
             for fname, o in origs.items():
                 setattr(cleanup_mod, fname, o)
             try:
@@ -1122,6 +1151,12 @@ def _execute(run, case, d):
             if tcl == 'timeless' and verdict == 'dc':
                 run.count('timeless_%s_%s' % (strategy, 'removed' if not p_api else 'kept'))
             if verdict == 'dc':
+                continue
+            if e.get('path') in victims:
+                # removed by the other party or by the cleanup: either way it says nothing
+                run.dc('tile_vanished_under_cleanup')
+                if e['path'] in vanished:
+                    run.hit('vanished_under_cleanup')
                 continue
             njudged += 1
             why = {'level_selected': z in sel, 'time': tcl, 'geo': gcl, 'off': e['off'], 'coord': list(coord),
